@@ -896,3 +896,72 @@ Lemma sensor_type_refuted_before_fix :
   /\ sensor_key_viewtyped ["cb_s_"; "cb_"; "s_"] [mkEntry "s_foo" true 2] "foo" = None
   /\ sensor_key ["cb_s_"; "cb_"; "s_"] [mkEntry "s_foo" true 2] "foo" = Some "s_foo".
 Proof. repeat split; vm_compute; reflexivity. Qed.
+
+(* ---------- laws ---------- *)
+(* the archived list can be processed piecewise: the outcome after a ++ b is the outcome of b started from the
+   outcome of a (an error stops everything) *)
+Lemma upgrade_composes stream : forall a b cur,
+  upgrade_flags stream cur (a ++ b) =
+  match upgrade_flags stream cur a with Ok c => upgrade_flags stream c b | Err e => Err e end.
+Proof.
+  induction a as [|f fs IH]; intros b cur; [reflexivity|]. cbn [app upgrade_flags].
+  destruct (type_is_flags f); [|apply IH].
+  destruct (f_src f) as [src|]; [|reflexivity].
+  destruct (mem_string stream src); [|apply IH].
+  destruct (f_info f) as [ci|]; [|reflexivity].
+  destruct (zs_eqb (c_rest ci) (c_rest cur)); [apply IH|reflexivity].
+Qed.
+
+(* stacking views = falling back: what the first prefixes do not define is looked up in the rest (a candidate's
+   attribute that none of its own namespaces defines is the opened stream's) *)
+Lemma lookup_app st k : forall ps1 ps2,
+  lookup st (ps1 ++ ps2) k = match lookup st ps1 k with Some v => Some v | None => lookup st ps2 k end.
+Proof.
+  induction ps1 as [|p ps1 IH]; intros ps2; [reflexivity|]. cbn [app lookup].
+  destruct (find_key st (p ++ k)%string); [reflexivity|apply IH].
+Qed.
+
+(* upgrade_flags=False: the archived streams are not even looked at - no error, own flags, own number of dumps *)
+Lemma upgrade_disabled s t stream cur archived : (0 <= c_dumps cur)%Z -> s = true \/ t = None ->
+  open_source (mkMode s (Some false) t) stream cur archived =
+  Ok (mkOpened (match t with Some k => k | None => c_dumps cur end)
+               (if s then Some (c_dumps cur, c_id cur, c_from cur) else None)).
+Proof.
+  intros H Hst. rewrite (span_however_opened (Some false) stream cur archived H s t Hst). cbv zeta.
+  rewrite Z.max_id. reflexivity.
+Qed.
+
+(* aligning twice changes nothing *)
+Lemma zmax_nonneg l : (0 <= zmax_list l)%Z.
+Proof. unfold zmax_list. induction l as [|x l IH]; cbn [fold_right]; lia. Qed.
+Lemma zmax_const m l : l <> [] -> (0 <= m)%Z -> (forall x, In x l -> x = m) -> zmax_list l = m.
+Proof.
+  unfold zmax_list. induction l as [|x l IH]; intros Hne Hm Hall; [contradiction|]. cbn [fold_right].
+  rewrite (Hall x (or_introl eq_refl)). destruct l as [|y l].
+  - cbn [fold_right]. lia.
+  - rewrite IH; [lia|discriminate|exact Hm|intros z Hz; apply Hall; right; exact Hz].
+Qed.
+Lemma align_idempotent arrays : align_chunk_info (align_chunk_info arrays) = align_chunk_info arrays.
+Proof.
+  destruct arrays as [|a0 rest]; [reflexivity|]. set (arrays := a0 :: rest).
+  unfold align_chunk_info at 1. set (al := align_chunk_info arrays).
+  assert (Hd : forall a, In a al -> dumps_of a = zmax_list (map dumps_of arrays)).
+  { intros a Ha. unfold al, align_chunk_info in Ha. apply in_map_iff in Ha. destruct Ha as (b & <- & Hb).
+    apply (align_spans_longer arrays b Hb). }
+  assert (Hm : zmax_list (map dumps_of al) = zmax_list (map dumps_of arrays)).
+  { apply zmax_const.
+    - unfold al, align_chunk_info, arrays. discriminate.
+    - apply zmax_nonneg.
+    - intros x Hx. apply in_map_iff in Hx. destruct Hx as (a & <- & Ha). apply Hd. exact Ha. }
+  rewrite Hm. rewrite <- (map_id al) at 2. apply map_ext_in. intros a Ha. unfold align_one.
+  rewrite (Hd a Ha), Z.sub_diag. cbn [Z.to_nat repeat]. apply app_nil_r.
+Qed.
+
+Example nonvacuous_laws :
+  upgrade_flags "l0" (mkC 3 3 [4]%Z 3) ([mkF (Some "sdp.flags") (Some ["l0"]) (Some (mkC 7 5 [4]%Z 7))] ++
+                                        [mkF (Some "sdp.flags") (Some ["l0"]) (Some (mkC 8 2 [4]%Z 8))]) = Ok (mkC 8 2 [4]%Z 8)
+  /\ lookup [mkEntry "b_k" false 2] (["a_"] ++ ["b_"]) "k" = Some 2%Z
+  /\ open_source (mkMode true (Some false) None) "l0" (mkC 3 3 [4]%Z 3) [mkF (Some "sdp.flags") (Some ["l0"]) (Some (mkC 8 2 [9]%Z 8))]
+     = Ok (mkOpened 3 (Some (3, 3, 3)%Z))
+  /\ align_chunk_info (align_chunk_info [[2; 2]; [3]; []]%Z) = [[2; 2]; [3; 1]; [1; 1; 1; 1]]%Z.
+Proof. repeat split; vm_compute; reflexivity. Qed.
